@@ -4,7 +4,7 @@ use lightmotif::abc::{Alphabet, Dna, Protein};
 use lightmotif::num::{PositiveLength, U16, U32};
 use lightmotif::pli::dispatch::Dispatch;
 use lightmotif::pli::platform::{Avx2, Generic, Sse2};
-use lightmotif::pli::{Pipeline, Score, Stripe};
+use lightmotif::pli::{Maximum, Pipeline, Score, Stripe, Threshold};
 use lightmotif::pwm::{DiscreteMatrix, ScoringMatrix};
 use lightmotif::scores::StripedScores;
 use lightmotif::seq::StripedSequence;
@@ -277,6 +277,151 @@ pub fn check_case(case: &Case, kernels: &[K8]) -> (u64, bool, Vec<(String, Strin
     (evals, nontrivial, fails)
 }
 
+// ---------------------------------------------------------------------------
+// clause 3: the pre-filter as the scanner applies it (block maximum, candidate selection)
+// ---------------------------------------------------------------------------
+
+/// For every row block {all rows, 0..1, 1..a, a..R}: score the block into a reused u8 buffer with pipeline `pl`,
+/// then (i) `pl.max` of the block must reach the largest byte image of a real score in the block, and
+/// (ii) for every attainable threshold t, `pl.threshold(block, scale(t))` must contain every position of
+/// the block whose real score is >= t.  Returns the first discrepancy.
+fn prefilter_one<PS>(pl: &PS, case: &Case, real: &[f32], img: &[u8]) -> Option<(String, String)>
+where
+    PS: Score<u8, Dna, U32> + Maximum<u8, U32> + Threshold<u8, U32>,
+{
+    let pssm = model::scoring::<Dna>(&case.matrix);
+    let dm = pssm.to_discrete();
+    let syms = model::to_symbols::<Dna>(&case.seq);
+    let mut striped: StripedSequence<Dna, U32> = Pipeline::<Dna, Generic>::generic().stripe(&syms);
+    striped.configure(&pssm);
+    let r = striped.matrix().rows() - striped.wrap();
+    let valid = real.len();
+    let a = (r + 1) / 2;
+    let mut scores = StripedScores::<u8, U32>::empty();
+    // distinct attainable thresholds (at most 16, evenly ranked, extremes included)
+    let mut ts: Vec<f32> = real.iter().cloned().filter(|x| x.is_finite()).collect();
+    ts.sort_by(|x, y| x.partial_cmp(y).unwrap());
+    ts.dedup();
+    if ts.len() > 16 {
+        let n = ts.len();
+        ts = (0..16).map(|i| ts[i * (n - 1) / 15]).collect();
+        ts.dedup();
+    }
+    for (lo, hi) in [(0usize, r), (a, r), (0usize, 1usize.min(r)), (1usize.min(r), a.max(1usize.min(r)))] {
+        if lo >= hi {
+            continue;
+        }
+        pl.score_rows_into(&dm, &striped, lo..hi, &mut scores);
+        let in_block: Vec<usize> = (0..valid).filter(|&p| p % r >= lo && p % r < hi).collect();
+        if in_block.is_empty() {
+            continue;
+        }
+        let need = in_block.iter().map(|&p| if real[p].is_finite() { img[p] } else { 0 }).max().unwrap();
+        let mx = pl.max(&scores);
+        if mx.map_or(true, |m| m < need) {
+            return Some((
+                "block maximum below the image of a real score".into(),
+                format!("rows {}..{} of {}: max() = {:?} but a position of the block has a real score whose byte image is {}", lo, hi, r, mx, need),
+            ));
+        }
+        for &t in &ts {
+            let t8 = dm.scale(t);
+            let cands: Vec<(usize, usize)> = pl.threshold(&scores, t8).into_iter().map(|c| (c.row, c.col)).collect();
+            for &p in &in_block {
+                if real[p] >= t && !cands.contains(&(p % r - lo, p / r)) {
+                    return Some((
+                        "pre-filter loses a hit".into(),
+                        format!(
+                            "rows {}..{} of {}: position {} scores {} >= threshold {} (byte threshold {}) but threshold() on the block's 8-bit scores does not select it (its 8-bit score is {})",
+                            lo, hi, r, p, real[p], t, t8, scores.matrix()[p % r - lo][p / r]
+                        ),
+                    ));
+                }
+            }
+        }
+    }
+    None
+}
+
+#[derive(Clone, Copy, Debug, PartialEq)]
+pub enum PF {
+    Gen,
+    Sse,
+    Avx,
+    Arm(Forced),
+}
+
+impl PF {
+    fn name(&self) -> String {
+        match self {
+            PF::Gen => "generic/U32 pre-filter".into(),
+            PF::Sse => "sse2/U32 pre-filter".into(),
+            PF::Avx => "avx2/U32 pre-filter".into(),
+            PF::Arm(a) => format!("dispatch[{}]/U32 pre-filter", cfgs::arm_name(*a)),
+        }
+    }
+    fn all() -> Vec<PF> {
+        let mut v = vec![PF::Gen, PF::Sse, PF::Avx];
+        for a in cfgs::FORCED {
+            v.push(PF::Arm(a));
+        }
+        v
+    }
+}
+
+/// Clause 3 on one DNA case, every pipeline. Returns (evaluations, failures as (signature, message, pipeline name)).
+pub fn check_prefilter(case: &Case) -> (u64, Vec<(String, String, String)>) {
+    let mut fails = Vec::new();
+    let m = case.matrix.len();
+    let l = case.seq.len();
+    if l < m || case.alpha != "dna" {
+        return (0, fails);
+    }
+    let valid = l - m + 1;
+    let prep = catch(|| {
+        let pssm = model::scoring::<Dna>(&case.matrix);
+        let dm = pssm.to_discrete();
+        let real: Vec<f32> = (0..valid).map(|i| model::ref_score_f32(&case.matrix, &case.seq, i)).collect();
+        let img: Vec<u8> = real.iter().map(|&s| dm.scale(s)).collect();
+        (real, img)
+    });
+    let (real, img) = match prep {
+        Ok(x) => x,
+        Err(_) => return (0, fails), // reported by clause 1
+    };
+    let mut evals = 0;
+    for pf in PF::all() {
+        evals += 1;
+        let r = catch(|| match pf {
+            PF::Gen => prefilter_one(&Pipeline::<Dna, Generic>::generic(), case, &real, &img),
+            PF::Sse => prefilter_one(&Pipeline::<Dna, Sse2>::sse2().unwrap(), case, &real, &img),
+            PF::Avx => prefilter_one(&Pipeline::<Dna, Avx2>::avx2().unwrap(), case, &real, &img),
+            PF::Arm(a) => with_arm(a, || prefilter_one(&Pipeline::<Dna, Dispatch>::dispatch(), case, &real, &img)),
+        });
+        match r {
+            Err(p) => fails.push((format!("panic {}", vx_core::util::panic_class(&p)), format!("panic: {}", p), pf.name())),
+            Ok(Some((sig, msg))) => fails.push((sig, msg, pf.name())),
+            Ok(None) => {}
+        }
+    }
+    (evals, fails)
+}
+
+/// Run clause 3 (pre-filter) on a DNA case and report.
+fn report_prefilter(case: &Case, rep: &mut Report) {
+    let (e, fails) = check_prefilter(case);
+    for _ in 0..e {
+        rep.eval_distinct(true);
+    }
+    for (sig, msg, name) in fails {
+        rep.violation(format!("C08 dna {} {}", name, sig), msg, || {
+            let mut j = case.json(None);
+            j["kernel"] = json!(name);
+            j
+        });
+    }
+}
+
 fn row_menu() -> Vec<[f32; 4]> {
     vec![
         [0.0, 1.0, 0.0, 0.0],
@@ -357,7 +502,7 @@ pub fn run(ctx: &mut Ctx, rep: &mut Report) {
             "menu",
             "product: all 7^M DNA matrices built from a 7-row menu (incl. rows whose byte image is x.5, so that already M=2 pushes the consensus sum past 255), M in 1..=4 (thorough 1..=5), \
              x wildcard column {-inf, row minimum - 1, row mean, above the row maximum} x 14 kernels {generic U16/U32, sse2 U16/U32, avx2 saturating, dispatcher arms, scalar DiscreteMatrix::score_position; generic / avx2 / dispatcher arms block by block through score_rows_into on a reused buffer} \
-             on a de Bruijn word containing EVERY 5^M window (wildcard included); oracle: u8 >= scale(real) at every position and, for every attainable threshold, real>=t => u8>=scale(t); \
+             on a de Bruijn word containing EVERY 5^M window (wildcard included); oracle: u8 >= scale(real) at every position and, for every attainable threshold, real>=t => u8>=scale(t); the PRE-FILTER as the scanner applies it, for {generic, sse2, avx2, dispatcher arms} on row blocks {all, 0..1, 1..a, a..R} of a reused buffer: Maximum<u8>::max of the block >= the largest byte image in the block, and Threshold<u8>::threshold(block, scale(t)) selects every position with real >= t (<= 16 attainable thresholds); \
              evaluations = kernel runs; non-trivial = some window has a finite real score",
         );
         for m in 1..=(if ctx.quick() { 4usize } else { 5 }) {
@@ -382,6 +527,7 @@ pub fn run(ctx: &mut Ctx, rep: &mut Report) {
                         .collect();
                     let case = Case { alpha: "dna", matrix, seq: seq.clone(), origin: format!("menu M={} matrix#{} wildcard-kind={}", m, mi, wk) };
                     let (e, nt, fails) = check_case(&case, &kd);
+                    report_prefilter(&case, rep);
                     for _ in 0..e {
                         rep.eval_distinct(nt);
                     }
@@ -420,6 +566,7 @@ pub fn run(ctx: &mut Ctx, rep: &mut Report) {
                 let seq = wide_sequence(&matrix);
                 let case = Case { alpha: "dna", matrix, seq, origin: format!("wide M={} flavour={}", m, fl) };
                 let (e, nt, fails) = check_case(&case, &kd);
+                report_prefilter(&case, rep);
                 for _ in 0..e {
                     rep.eval_distinct(nt);
                 }
@@ -440,6 +587,7 @@ pub fn run(ctx: &mut Ctx, rep: &mut Report) {
             let matrix = crate::c01::make_matrix("logodds", m, 5, 0);
             let seq = wide_sequence(&matrix);
             let case = Case { alpha: "dna", matrix, seq, origin: format!("wide logodds M={}", m) };
+            report_prefilter(&case, rep);
             let (e, nt, fails) = check_case(&case, &kd);
             for _ in 0..e {
                 rep.eval_distinct(nt);
@@ -480,6 +628,10 @@ pub fn run(ctx: &mut Ctx, rep: &mut Report) {
 pub fn replay(_ctx: &mut Ctx, rep: &mut Report, v: &Value) {
     rep.space("replay", "replay of one recorded case");
     let case = Case::from_json(v);
+    if v["kernel"].as_str().map_or(false, |k| k.ends_with("pre-filter")) {
+        report_prefilter(&case, rep);
+        return;
+    }
     let ks: Vec<K8> = match v["kernel"].as_str().and_then(K8::from_name) {
         Some(k) => vec![k],
         None => {
